@@ -120,6 +120,81 @@ pub fn dense_loop<S: Source>(s: &mut S, input: &[usize], inp: usize, out: usize,
     forget((act, init));
 }
 
+/// The same iteration *through the `Model` struct* (`Model::forward`, `Model::backward`,
+/// `Model::update`): bounded attempt, DESIGN.md closing note.  Also decides the `Model`
+/// clauses of C15 (forward is the layer's output; the value returned by backward is the sum
+/// of the cost array).
+pub fn model_loop<S: Source>(s: &mut S, input: &[usize], inp: usize, out: usize, c: Cost, iterations: usize) {
+    use corgi::model::Model;
+    let dom = Dom::D2;
+    let lr = s.lr();
+    let gd = GradientDescent::new(lr);
+    let init = initializer(s.vals(inp * out + out, dom));
+    let mut layer = Dense::new(inp, out, &init, None);
+    let ndir = inp * out + out;
+    let costf: corgi::cost::CostFunction = match c {
+        Cost::Mse => cost::mse(),
+        Cost::Bilinear => Box::new(|o: &Array, t: &Array| o * t),
+    };
+    // snapshots of the parameters before each iteration are read through a second borrow
+    // after the model is done with the layer, so the expected values are accumulated here
+    let mut expect: Vec<Vec<Float>> = Vec::new();
+    for p in layer.parameters() {
+        expect.push(p.values().to_vec());
+    }
+    let dims: Vec<Vec<usize>> = layer.parameters().iter().map(|p| p.dimensions().to_vec()).collect();
+    {
+        let mut model = Model::new(vec![&mut layer], &gd, &costf);
+        for _ in 0..iterations {
+            let mut pv: Vec<T> = Vec::new();
+            let mut first = 0;
+            for (pi, e) in expect.iter().enumerate() {
+                pv.push(T::var(&dims[pi], e.clone(), first, ndir));
+                first += e.len();
+            }
+            let x = mk(s, input, dom);
+            let xr = T::konst(x.dimensions(), x.values().to_vec(), ndir);
+            let y = model.forward(x.clone());
+            let yr = refmodel::matmul(&xr, false, &pv[0], true, Some(&pv[1])).expect("[ref]");
+            crate::cases::grad::check_forward(&y, &yr, false);
+            let t = mk(s, y.dimensions(), dom);
+            let tr = T::konst(t.dimensions(), t.values().to_vec(), ndir);
+            let loss = model.backward(t.clone());
+            let er = cost_ref(&yr, &tr, c);
+            let mut lref: Float = 0.0;
+            for v in er.v.iter() {
+                lref += *v;
+            }
+            chk!(same(loss, lref, false), "[c14:loss] the iteration's loss is not the loss of the current parameters on the current batch");
+            let ones = vec![1.0 as Float; er.len()];
+            let g = refmodel::vjp_all(&er, &ones);
+            model.update();
+            let mut first = 0;
+            for e in expect.iter_mut() {
+                for k in 0..e.len() {
+                    e[k] = e[k] - lr * g[first + k];
+                }
+                first += e.len();
+            }
+            forget((x, y, t));
+        }
+        forget(model);
+    }
+    for (pi, p) in layer.parameters().into_iter().enumerate() {
+        chk!(dims_eq(p.dimensions(), &dims[pi]), "[c14:param-dims] an update changed a parameter's dimensions");
+        chk!(p.gradient().is_none(), "[c14:gradient-left] a gradient survived the update");
+        for k in 0..expect[pi].len() {
+            chk!(
+                same(p.values()[k], expect[pi][k], false),
+                "[c14:step] parameter did not move by -lr times the exact gradient of the current loss"
+            );
+        }
+    }
+    witness();
+    forget(layer);
+    forget((init, costf));
+}
+
 /// one iteration of a stack of two conv layers (the first layer's parameters receive their
 /// gradient through the second convolution's *input* derivative) with the bilinear cost
 pub fn conv2_loop<S: Source>(
